@@ -655,9 +655,77 @@ def has_min_term(n, cls):
     return False
 
 
+LEVELS = ['error!', 'warn!', 'info!', 'debug!', 'trace!']
+
+
+def log_macro_region(f, bi):
+    """The `log` macro whose arguments block bi belongs to: the block is dominated by the 'enabled' edge of the
+    `lvl <= log::max_level()` test of a macro expansion and the expansion's `__private_api::log` call is still ahead of it."""
+    dom = f.dominators()
+    best = None
+    for mb, b in enumerate(f.blocks):
+        t = b['term']
+        if t['k'] != 'call' or t['callee'] != 'log::max_level' or t['span'].get('macro') not in LEVELS or mb not in dom.get(bi, ()):
+            continue
+        # the comparison and its switch follow; the enabled successor dominates the expansion's log call
+        x = t['target']
+        for _ in range(3):
+            if x is None or f.blocks[x]['term']['k'] == 'switch':
+                break
+            x = f.blocks[x]['term'].get('target')
+        if x is None or f.blocks[x]['term']['k'] != 'switch':
+            continue
+        logs = [lb for lb, b2 in enumerate(f.blocks) if b2['term']['k'] == 'call' and b2['term']['callee'].startswith('log::__private_api::log')
+                and b2['term']['span'].get('macro') == t['span'].get('macro') and b2['term']['span'].get('line') == t['span'].get('line') and x in dom.get(lb, ())]
+        for e in f.succ[x]:
+            for lb in logs:
+                if e in dom.get(lb, ()) and e in dom.get(bi, ()) and lb not in dom.get(bi, ()) and bi in f.reachable(e) and lb in f.reachable(bi):
+                    best = t['span']['macro']
+    return best
+
+
+def max_log_level(F):
+    """Upper bound of the `log` level the process can run with, from main(): the only level setter is stderrlog's `verbosity(n)`
+    (0 error, 1 warn, 2 info, 3 debug, 4+ trace) and n is `ValueSource as usize` (clap: DefaultValue 0, EnvVariable 1, CommandLine 2)."""
+    setters = []
+    for fid, f in F.fns.items():
+        for bi, b in enumerate(f.blocks):
+            t = b['term']
+            if t['k'] == 'call' and not b['cleanup'] and re.search(r'^log::set_max_level|^stderrlog::StdErrLog::verbosity$|^log::set_(boxed_)?logger|^log::set_logger_racy|^stderrlog::StdErrLog::(quiet|init)', t['callee']):
+                setters.append((fid, bi, t['callee']))
+    lvl = None
+    for fid, bi, c in setters:
+        if c.startswith('log::set_max_level'):
+            return None, 'log::set_max_level called in %s' % fid
+        if c.endswith('::verbosity'):
+            f = F.fn(fid)
+            a = f.arg(bi, 1)
+            v = const_val(a)
+            if v is None:
+                e = a
+                while isinstance(e, tuple) and e[0] == 'cast':
+                    e = e[2]
+                if isinstance(e, tuple) and e[0] == 'discr' and is_call(peel(e[1], casts=False), r'^clap::ArgMatches::value_source$'):
+                    v = 2
+            if v is None:
+                return None, 'verbosity(%s) in %s' % (short(a)[:60], fid)
+            lvl = max(lvl or 0, v)
+    if lvl is None:
+        return 0, 'no logger is installed: log::max_level() stays Off'
+    return lvl, 'stderrlog verbosity <= %d (%s)' % (lvl, LEVELS[min(lvl, 4)])
+
+
 def discharge_api(F, f, bi, api, s):
     t = f.blocks[bi]['term']
     args = s['args']
+    if api == 'pnet-ndp-options':
+        m = log_macro_region(f, bi)
+        if m is None:
+            return False, 'parses NDP options of a received packet (pnet: (len * 8) - 2 in u8 overflows for an option length >= 32)'
+        lvl, why = max_log_level(F)
+        if lvl is not None and LEVELS.index(m) > lvl:
+            return True, 'argument of %s, never evaluated: %s' % (m, why)
+        return False, 'argument of %s, evaluated when that level is enabled (%s): parses NDP options of a received packet (pnet: (len * 8) - 2 in u8)' % (m, why)
     if api == 'pnet-fill':
         # allocation / fill agreement is decided by C04-R2 / C05-R2 for these call sites (same facts); here: the buffer of the
         # receiver object was allocated from the length of the very value that is copied in
